@@ -738,6 +738,91 @@ def check_contract_of(unit, toks, i, n, arg, lemma=False):
     unit.contract_links.append(arg)
 
 
+def split_contract(ts):
+    """signature tokens (up to the first requires/ensures at depth 0) and the clause lists of a fn head.
+    Clauses are split at top-level commas; brackets and the binder bars of forall/exists/choose nest."""
+    head, req, ens, other = [], [], [], []
+    cur = head
+    clause = None
+    depth = 0
+    bars = []          # depth at which a quantifier binder is open
+    k = 0
+    def flush():
+        nonlocal clause
+        if clause:
+            cur.append(clause)
+        clause = None
+    while k < len(ts):
+        t = ts[k]
+        if depth == 0 and not bars and t in ('requires', 'ensures', 'decreases', 'recommends') and cur is not None:
+            if cur is head:
+                pass
+            else:
+                flush()
+            cur = {'requires': req, 'ensures': ens}.get(t, other)
+            clause = []
+            k += 1
+            continue
+        if cur is head:
+            head.append(t)
+            # generics / parameter lists of the head are kept as they are
+            k += 1
+            continue
+        if t in ('(', '[', '{'):
+            depth += 1
+        elif t in (')', ']', '}'):
+            depth -= 1
+        elif t == '|' and k > 0 and ts[k - 1] in ('forall', 'exists', 'choose'):
+            bars.append(depth)
+        elif t == '|' and bars and bars[-1] == depth:
+            bars.pop()
+        if t == ',' and depth == 0 and not bars:
+            flush()
+            clause = []
+        else:
+            clause.append(t)
+        k += 1
+    if cur is not head:
+        flush()
+    return head, [c for c in req if c], [c for c in ens if c], [c for c in other if c]
+
+
+def check_contract_weaker(unit, toks, i, n, arg):
+    """//@CONTRACT-WEAKER-THAN <unit> :: <item path>: the assumed declaration has the verified item's signature, every
+    `ensures` clause it states is, token for token, an `ensures` clause the named unit verifies on the real body, and
+    every `requires` clause of the verified contract is among the assumed ones (so what is assumed follows from
+    what is proved; spec functions the clauses mention may be uninterpreted on the assuming side)."""
+    other, path = [x.strip() for x in arg.split('::', 1)]
+    base = os.path.dirname(unit.tmpl_path)
+    if other not in _tmpl_cache:
+        u2 = Unit(other, os.path.join(base, other + '.rs.tmpl'), unit.repo)
+        text = expand_includes(open(u2.tmpl_path).read(), base, u2)
+        _tmpl_cache[other] = tokenize(text)[0]
+    ot = _tmpl_cache[other]
+    want = None
+    for k, t in enumerate(ot):
+        if '//@SRC' in t.trivia:
+            for kd, a2 in parse_directives(t.trivia):
+                if kd == 'SRC' and a2.split('::', 1)[1].strip() == path:
+                    want = parse_item(ot, k, len(ot), True)
+    if want is None:
+        raise LostAnchor('CONTRACT-WEAKER-THAN %s: no such verified item' % arg)
+    mine = parse_item(toks, i, n, True)
+    vh, vreq, vens, voth = split_contract(sig_tokens(ot, want))
+    ah, areq, aens, aoth = split_contract(sig_tokens(toks, mine))
+    if vh != ah:
+        raise LostAnchor('CONTRACT-WEAKER-THAN %s: signature differs: %s' % (arg, first_diff(ah, vh)))
+    for c in aens:
+        if c not in vens:
+            raise LostAnchor('CONTRACT-WEAKER-THAN %s: assumed ensures clause is not verified there: %s' % (arg, ' '.join(c)[:160]))
+    for c in vreq:
+        if c not in areq:
+            raise LostAnchor('CONTRACT-WEAKER-THAN %s: verified requires clause is not demanded here: %s' % (arg, ' '.join(c)[:160]))
+    if not aens:
+        raise LostAnchor('CONTRACT-WEAKER-THAN %s: nothing assumed' % arg)
+    unit.contract_links.append(arg + ' (clause subset: %d of %d ensures)' % (len(aens), len(vens)))
+
+
 INCLUDE = re.compile(r'^[ \t]*//@INCLUDE[ \t]+(\S+)[ \t]*$', re.M)
 
 
@@ -773,6 +858,8 @@ def generate(unit, canary=False, expand=True):
                 check_contract_of(unit, toks, i, n, arg)
             elif kd == 'LEMMA-OF':
                 check_contract_of(unit, toks, i, n, arg, lemma=True)
+            elif kd == 'CONTRACT-WEAKER-THAN':
+                check_contract_weaker(unit, toks, i, n, arg)
         if 'SRC' in kinds:
             src_arg = [d[1] for d in ds if d[0] == 'SRC'][0]
             nth = None
